@@ -1,7 +1,9 @@
 """C13 - variational ground-state search is sound and converges on small systems.
 
 proof gate (coq/Props/C13.v)  +  correspondence: get_sweep_schedule and the environment bookkeeping of instrumented finite
-DMRG runs (stored LP/RP after every local update, freshness of every environment read) <-> Model/Sweep.v (vm_compute)  +
+DMRG runs (stored LP/RP after every local update, freshness of every environment read) <-> Model/Sweep.v (vm_compute); instrumented
+infinite DMRG runs (stored keys, per-factor currency and age of every stored LP/RP after every local update, the environments read for
+eff_H) <-> Model/SweepInf.v (Model/SweepInfCheck.v check_inf_run)  +
 oracle: exact diagonalisation (dense Hamiltonians built here from the documented formulas) in the charge sector.
 """
 import itertools
@@ -201,6 +203,35 @@ def gen_inf(rng):
             'trace': False, 'init_chi': 8 if engine == 'vumps1' else None}
 
 
+def gen_inf_trace(rng):
+    """short infinite DMRG runs whose environment bookkeeping is traced from outside (Model/SweepInf.v): L = 2..4, two-site and
+    one-site engine, constructed with start_env = 0 (fresh environment; the initial environment sweeps are run by the runner after the
+    instrumentation is installed), a few optimisation sweeps interleaved with environment sweeps (update_env)."""
+    engine = rng.choice(['two', 'single'])
+    L = rng.choice([2, 3, 4])
+    name = rng.choice(['tfi', 'tfi', 'xxz']) if L % 2 == 0 else 'tfi'
+    if name == 'tfi':
+        model = {'name': 'tfi', 'J': 1.0, 'g': rng.choice([0.5, 1.5, 2.0]), 'conserve': rng.choice(['None', 'parity'])}
+        idx = [0] * L
+    else:
+        model = {'name': 'xxz', 'Jxx': 1.0, 'Jz': rng.choice([1.0, 0.5]), 'hz': 0.0}
+        idx = [i % 2 for i in range(L)]
+    mixer = rng.choice([None, True, True, 'DensityMatrixMixer', 'SubspaceExpansion'])
+    if engine == 'single' and mixer == 'DensityMatrixMixer':
+        mixer = 'SubspaceExpansion'       # see T13_charge_one_site_dm_mixer_refuted
+    nsc = rng.choice([1, 1, 2, 3])
+    # (the run stops when sweeps > max_sweeps: one or two iterations of N_sweeps_check optimisation + update_env environment sweeps)
+    opts = {'start_env': 0, 'trunc_params': {'chi_max': rng.choice([4, 6]), 'svd_min': 1e-10}, 'N_sweeps_check': nsc,
+            'min_sweeps': nsc, 'max_sweeps': nsc * rng.choice([1, 2]) - 1, 'update_env': rng.choice([0, 1, 1, 2]),
+            'max_E_err': 1e-14, 'max_S_err': 1e-14, 'combine': rng.random() < 0.5, 'mixer': mixer, 'norm_tol': rng.choice([None, 1e-5]),
+            'max_trunc_err': 10.0}
+    if mixer is not None:
+        opts['mixer_params'] = {'amplitude': 1e-3, 'decay': 2.0, 'disable_after': rng.choice([1, 2, 50])}
+    names = ['up', 'down']
+    return {'model': model, 'L': L, 'bc': 'infinite', 'engine': engine, 'init': [names[i] for i in idx], 'init_idx': idx, 'options': opts,
+            'trace_inf': True, 'pre_env_sweeps': rng.choice([0, 1, 1, 2]), 'init_chi': None}
+
+
 def gen_schedule_case(rng):
     fin = rng.random() < 0.6
     engine = rng.choice(['two', 'single'])
@@ -231,24 +262,59 @@ def entry_lit(e):
     return (Nat(e[0]), bool(e[1]), (bool(e[2]), bool(e[3])))
 
 
+def inf_trace_case(L, n, steps):
+    """-> (Coq literal for check_inf_run, problems of the trace format, oracle problems).  The oracle evaluates on the implementation's own
+    tags what T13_no_stale_env_infinite_partial states: the LP / RP read for eff_H are current on the window of L sites that contains the
+    optimised sites ([0, L) moving right, [n, L + n) moving left)."""
+    fmt, stale = [], []
+    cap = 2 * L + 2
+
+    def slot(x):
+        if x is None:
+            return None
+        b, age = x
+        if age is None or any(v is None for v in b):
+            fmt.append('stored environment without age / tag')
+            return common.Some(([], Nat(0)))
+        return common.Some(([bool(v) for v in b], Nat(min(int(age), 4000))))
+    lits = []
+    for k, s in enumerate(steps):
+        i0, mr = s['i0'], s['mr']
+        rl, rr = s['readL'], s['readR']
+        if rl is None or rr is None or rl[0] != i0 or rr[0] != i0 + n - 1:
+            fmt.append('step %d (i0=%d): first reads are %s / %s, expected LP[%d] / RP[%d]' % (k, i0, rl and rl[0], rr and rr[0], i0, i0 + n - 1))
+            rl, rr = rl or [i0, None], rr or [i0 + n - 1, None]
+        w0 = 0 if mr else n
+        needL, needR = max(i0 - w0, 0), max(w0 + L - 1 - (i0 + n - 1), 0)
+        for side, need, tag in (('L', needL, rl[1]), ('R', needR, rr[1])):
+            if tag is None or len(tag) < need or not all(tag[:need]):
+                stale.append('step %d (i0=%d, move_right=%s): %sP read for eff_H is not current on its first %d factors: %s' % (k, i0, mr, side, need, tag))
+        lits.append((entry_lit((i0, mr, s['upl'], s['upr'])),
+                     (common.opt(None if rl[1] is None else [bool(v) for v in rl[1]]), common.opt(None if rr[1] is None else [bool(v) for v in rr[1]])),
+                     ([slot(x) for x in s['LP']], [slot(x) for x in s['RP']])))
+    return '(mk_inf_case ' + coq_lit((Nat(L), Nat(n), lits)) + ')', fmt, stale
+
+
 def main(ctx):
     rng = ctx.rng
-    ctx.proof = common.check_proofs('C13')
+    ctx.proof = common.check_proofs('C13', extra_targets=['Model/SweepInfCheck.vo'])
     mult = 1 if ctx.proof.ok else 2
     cases = [gen_case(rng) for _ in range(ctx.pick(60, 600) * mult)]
     cases += [gen_case(rng, exact=True) for _ in range(ctx.pick(24, 240) * mult)]
     cases += [gen_inf(rng) for _ in range(ctx.pick(8, 40))]
+    cases += [gen_inf_trace(rng) for _ in range(ctx.pick(24, 160) * mult)]
     cases += [gen_schedule_case(rng) for _ in range(ctx.pick(40, 200))]
     for c in common.corpus_cases('C13'):
         cases.append(c['case'])
     results = run_chunks(ctx, cases)
     coq_s, coq_s_idx, coq_r, coq_r_idx = [], [], [], []
     coq_q, coq_q_idx = [], []
+    coq_i, coq_i_idx = [], []
     hist = {'mixer': 0, 'single': 0, 'truncated': 0, 'exact_reached': 0, 'degenerate_gs': 0, 'complex': 0, 'steps': 0}
     for idx, (case, r) in enumerate(zip(cases, results)):
         if r is None:
             continue
-        stream = 'schedule' if case.get('schedule_only') else ('dmrg-' + case['bc'])
+        stream = 'schedule' if case.get('schedule_only') else ('env-trace-inf' if case.get('trace_inf') else 'dmrg-' + case['bc'])
         if 'runner_error' in r:
             ctx.fail('correspondence', 'runner failed: ' + r['runner_error'][-700:], {'stream': stream, 'case': case})
             continue
@@ -274,6 +340,25 @@ def main(ctx):
             continue
         probs = []
         opts = case['options']
+        if case.get('trace_inf'):
+            # ---- infinite environment trace: stored keys / tags / ages and the reads for eff_H vs Model/SweepInf.v
+            steps = r.get('inf_steps') or []
+            ini = r.get('inf_init') or {}
+            ctx.count(stream, [case['model'], L, case['engine'], opts, case.get('pre_env_sweeps')], nontrivial=len(steps) >= 2 * L,
+                      sample={'model': case['model'], 'L': L, 'engine': case['engine'], 'steps': len(steps), 'sweeps': r['sweeps']})
+            hist['inf_steps'] = hist.get('inf_steps', 0) + len(steps)
+            tp = list(r.get('trace_problems') or [])
+            if ini.get('LP') != [0] or ini.get('RP') != [L - 1] or ini.get('ages') != [[0], [0]]:
+                tp.append('environment of a new engine (start_env=0) is not {LP[0], RP[L-1]} of age 0: %s' % ini)
+            lit, fmt, stale = inf_trace_case(L, r['n'], steps)
+            tp += fmt[:3]
+            if tp or not steps:
+                ctx.fail('correspondence', 'infinite environment trace: ' + ('; '.join(tp) or 'no local update recorded'), {'stream': stream, 'case': case})
+            if stale:
+                ctx.fail('oracle', 'infinite DMRG: ' + '; '.join(stale[:3]), {'stream': stream, 'case': case}, match_key='C13:' + stream)
+            coq_i.append(lit)
+            coq_i_idx.append(idx)
+            continue
         if case['bc'] == 'finite':
             H = dense_H(case)
             mask = sector_mask(case)
@@ -391,7 +476,15 @@ def main(ctx):
         ctx.fail('correspondence', 'Model/SweepCharge.v and the instrumented run disagree on the qtotal of the site tensors after some local '
                  'update (charge bookkeeping of update_local: theta.qtotal / qtotal_LR / set_B)',
                  {'stream': 'charge-trace', 'case': cases[coq_q_idx[b]]})
-    ctx.cov['traces_validated_against_impl'] = len(coq_s) + len(coq_r) + len(coq_q)
+    bad, err = common.coq_failing_indices('cases_c13_i', ['Base.Prelude', 'Model.Sweep', 'Model.SweepInf', 'Model.SweepInfCheck'], 'check_inf_run',
+                                          coq_i, shard=40)
+    if err:
+        ctx.fail('correspondence', 'model evaluation failed: ' + err[-600:], None)
+    for b in bad[:5]:
+        ctx.fail('correspondence', 'Model/SweepInf.v and the instrumented infinite run disagree on the stored environments (keys, which factors '
+                 'are current, ages) after some local update or on the environments read for eff_H',
+                 {'stream': 'env-trace-inf', 'case': cases[coq_i_idx[b]]})
+    ctx.cov['traces_validated_against_impl'] = len(coq_s) + len(coq_r) + len(coq_q) + len(coq_i)
     ctx.cov['input_distribution'] = hist
     ctx.assumptions += [
         'C13 model: only the sweep protocol (schedule, which environments are stored/deleted/recomputed, site versions); tensors, energies, '
